@@ -142,6 +142,36 @@ pub fn replay(cases: &str, verdicts: &str) {
                 v.check(same, if f2 { "Matrix.dot_t(Matrix)" } else { "Matrix.t_dot(Matrix)" }, &format!("aliased operands {}", shape), &c, json!(alias.as_ref().map(mat_json)));
             }
         }
+        // the same operand BUFFERS again after two entries were exchanged in place (same address, length, shape and entry sum): the product is
+        // a function of the values - equal to the product of fresh copies, bit for bit
+        if !bad && sc.is_empty() && a.data.len() >= 2 && b.data.len() >= 2 {
+            let r = guard(|| {
+                let (mut ab, mut bb) = (a.data.to_vec(), b.data.to_vec());
+                let _ = matmul(&ab, &bb, a.nrows, b.nrows, ta, tb);
+                let (la, lb) = (ab.len(), bb.len());
+                ab.swap(0, la - 1); bb.swap(0, lb - 1);
+                let got = matmul(&ab, &bb, a.nrows, b.nrows, ta, tb);
+                let want = matmul(&ab.clone(), &bb.clone(), a.nrows, b.nrows, ta, tb);
+                // definition on the integers, for the exchanged operands
+                let (ra, ca, rb, cb) = (a.nrows, a.ncols, b.nrows, b.ncols);
+                let at = |i: usize, k: usize| if ta { ab[k * ca + i] } else { ab[i * ca + k] };
+                let bt = |k: usize, j: usize| if tb { bb[j * cb + k] } else { bb[k * cb + j] };
+                let (mm, ll, nn) = (if ta { ca } else { ra }, if ta { ra } else { ca }, if tb { rb } else { cb });
+                let def: Vec<f64> = (0..mm * nn).map(|q| (0..ll).map(|k| at(q / nn, k) * bt(k, q % nn)).sum::<f64>()).collect();
+                (got, want, def)
+            });
+            let okb = r.as_ref().map(|(g, w, d)| g.len() == w.len() && g.iter().zip(w).all(|(p, q)| p.to_bits() == q.to_bits()) && all_eq(g, d)).unwrap_or(false);
+            v.check(okb, "matmul", &format!("same buffers after an in-place exchange t{}{}", ta as u8, tb as u8), &c, json!(r.as_ref().map(|(g, _, d)| json!({"got": fjs(g), "definition": fjs(d)}))));
+        }
+        // a 1 x 1 right operand is a matrix, not a scalar: (m x l) . (1 x 1) with l >= 2 has no conformable reading under the flags
+        // (op(A) has l >= 2 columns) and is rejected like any other mismatch - in every ownership form
+        if !bad && sc.is_empty() && l >= 2 && m >= 2 {
+            let one = mk(Vector::new(vec![3.0]), 1, 1);
+            let meth1 = if ta { "t_dot" } else { "dot" };
+            for (form, g) in mm_forms(meth1, &a, &one) {
+                v.check(g.is_none(), &format!("Matrix.{}(1x1 Matrix) {}", meth1, form), "nonconformable 1x1 right operand", &c, g.as_ref().map(mat_json).unwrap_or(json!("panic")));
+            }
+        }
         if !bad && !near_sym {
             let g = guard(|| xtx(&a.data, a.nrows));
             let e = mat_of(&c["xtx"]);
